@@ -85,3 +85,59 @@ def directive_of(it, v):
 
 def directive_struct(it, d):
     return (d.f[0].b, d.f[1].b, d.f[2].vname, [a.b for a in d.f[3].e])
+
+
+# ----------------------------------------------------------------------------- native validation of sampled paths
+# A harness may leave in ctx.notes['native_check'] a description of what the natively compiled code must answer on the
+# sampled path: tokens are str (literal) or lists of byte terms (ints / symbol names) that are concretised with the
+# path's solver model.  `./check` replays up to a handful of samples per run (evidence: traces_validated_against_impl).
+
+def nc_tokens(*toks):
+    out = []
+    for t in toks:
+        if isinstance(t, str):
+            out.append(t)
+        else:
+            out.append([b if isinstance(b, int) else b[1] for b in t])
+    return out
+
+
+def _conc_tokens(tokens, model):
+    out = []
+    for t in tokens:
+        if isinstance(t, str):
+            out.append(t)
+        else:
+            bs = bytes(x if isinstance(x, int) else _lookup(model, x) for x in t)
+            out.append(hexs(bs))
+    return ' '.join(out)
+
+
+def _lookup(model, name):
+    # models in samples are printable strings grouped by base name: name = base_idx
+    base, _, idx = name.rpartition('_')
+    v = model.get(base)
+    if v is None:
+        raise KeyError(name)
+    return ord(v[int(idx)])
+
+
+def validate_line_samples(native, samples):
+    ok_n = 0
+    bad = []
+    for smp in samples:
+        nc = (smp.get('notes') or {}).get('native_check')
+        if not nc:
+            continue
+        try:
+            if nc['kind'] == 'line':
+                req = _conc_tokens(nc['request'], smp['model'])
+                exp = _conc_tokens(nc['expect'], smp['model'])
+                got = native.ask(req)
+                if got == exp:
+                    ok_n += 1
+                else:
+                    bad.append('%s -> native %s, interpreter %s' % (req, got, exp))
+        except KeyError:
+            continue
+    return ok_n, bad
